@@ -35,7 +35,12 @@ func init() {
 			{"C01.R10", "q", "tree item carries the key hash, position, version and value hash it was given", c01r10},
 			{"C09.R7", "q", "shared: positions resolve to (chunk, offset); header sizes are actual sizes", c09r7},
 			{"C04.L5", "q", "shared: flush writes the file before detaching from the buffer", c04l5},
+			{"C14.R10", "q", "shared: hint lookups are newest-first (colliding keys are served from the hints)", c14r10},
+			{"C01.R11", "q", "memcache adapter maps key, bytes, flags and revision both ways", c01r11},
 			{"C01.R8", "t", "discovery: every caller of HTree.set/hintMgr.set passes a position from an append, a lookup or a hint item", c01r8},
+			{"C01.R12", "q", "version arithmetic: |oldv|+1 on set, -|oldv|-1 on delete", c01r12},
+			{"C08.R7", "q", "shared: stored key-hash width covers the digits below the leaf level", c08r7},
+			{"C11.R9", "q", "shared: per-command state reset unconditional (a stale noreply swallows the next replies)", c11r9},
 		},
 	})
 }
